@@ -17,13 +17,13 @@ CLAIMED = {
    text="Seeded exploration of start/stop/counter/outage histories of the real AccountingManager and radius.Client (every goroutine a scheduler task) over a simulated disk and RADIUS server, with a process crash injected at tape-chosen disk and network steps (including inside WriteFile), graceful stops and restarts from the surviving directory. Sampling, not proof.",
    note="Process-crash disk model (no power loss); request/reply loss stays inside the configured retry budget by construction; layeh's UDP retransmit loop is replaced by the simulated transport. Genuine defects that are not repaired are listed in known_findings.json by fingerprint.", ref="§5 C08"),
  "C02": dict(tech=TECH + "binding ledger built only from the replies the servers wrote (double binding, bad address, renewal stability, declined-not-reoffered, availability after release/expiry)",
-   text="Seeded exploration of DHCPv4 and DHCPv6 message histories from 2-5 clients against the real packet/message handlers (one handler task per message, bursts interleaved by the seeded scheduler), the real pools and the real lease-cleanup loop on a virtual clock that jumps across T1, expiry and the cleanup tick. Sampling, not proof.",
+   text="Seeded exploration of DHCPv4 and DHCPv6 message histories from 2-5 clients against the real packet/message handlers (one handler task per message, bursts interleaved by the seeded scheduler), the real pools (DHCPv6: legacy pools or integrated PoolAllocator pools) and the real lease-cleanup loop on a virtual clock that jumps across T1, expiry and the cleanup tick or lands exactly on it; duplicated renewals, relay-bypassing RELEASE/renew, optional RADIUS authentication with outages, and a drain tail that hands out any address wrongly put back into circulation. Sampling, not proof.",
    note="Clients are a MAC (or MAC + own circuit-id when relayed) resp. a DUID; replies are captured at the packet connection (v4: handler parameter; v6: the server's WriteToUDP call is redirected). Genuine defects not repaired are in known_findings.json.", ref="§5 C02"),
  "C04": dict(tech=TECH + "authentication-before-IP-service monitor over the session table and emitted frames; foreign-MAC frames must be no-ops",
    text="Seeded exploration of out-of-protocol-order PPPoE discovery/session frame histories from owner and foreign MACs against the real pppoe.Server handlers over an in-memory raw socket, with the real radius.Client authenticating against a simulated RADIUS server (accept/reject/timeout) and the server's own goroutines and cleanup ticker as scheduler tasks. Sampling, not proof.",
    note="Frames are handed to the handlers one at a time as the single receive loop does; activity counters are not part of 'changing' a session; only PAP is reachable through the server's dispatch (CHAP frames are not dispatched by it).", ref="§5 C04"),
  "C16": dict(tech=TECH + "resource ledger audited after quiescence (pool drain probe, NAT/QoS managers, kernel-map lookups, RADIUS record stream), idempotence under repeated and concurrent termination",
-   text="Seeded exploration of session establishment prefixes x termination paths x second (sequential or concurrent) terminations against composites of the real components (DHCPv4 server + pool + NAT + QoS + loader over real kernel maps + RADIUS client; further session types as variants), followed by an audit of every resource the session held. Sampling, not proof.",
+   text="Seeded exploration of session establishment prefixes x termination paths x second (sequential or concurrent) terminations against composites of the real components (DHCPv4 server + pool + NAT + QoS + loader over real kernel maps + RADIUS client; further session types as variants), followed by an audit of every resource the session held; faults: kernel-map inserts refused (single-slot map), single-block CGNAT pool, RADIUS rate limit 0.25/s, a client's REQUEST overlapping its RELEASE, caller context cancelled as a release goes out. Sampling, not proof.",
    note="Kernel maps are created by the harness with the value sizes the Go control plane marshals; XDP/TC programs are not loaded; the simulated RADIUS server answers every accounting request. Variants present in this build are listed in the evidence file.", ref="§5 C16"),
  "C19": dict(tech="deterministic simulation of a clocked process: the natively compiled TC program on a simulated kernel clock over a real kernel map written by the real qos.Manager; oracle = exact rational reference bounds (upper over all windows, lower for a backlogged subscriber, rate 0 unlimited)",
    text="Seeded exploration of arrival processes (sizes 1-65535, gaps 0 ns to days, kernel clock anywhere in 64 bits, rates 1 kbit/s-100 Gbit/s, bursts 1-2^32-1) against bpf/qos_ratelimit.c compiled natively, with the bucket written by the real control plane through cilium/ebpf into a real kernel map. Sampling, not proof.",
@@ -35,8 +35,8 @@ CLAIMED = {
    text="Seeded exploration of allocate/deallocate/re-allocate histories from 1-3 concurrent callers (statement-level yields in nat/manager.go) over port-range/block-size configurations incl. non-dividing sizes and the 65535 edge, with the real nat.Logger (all formats, bulk and per-allocation, rotation, flush loop on the virtual clock) writing to a private file that an independent resolver reads back. Sampling, not proof.",
    note="eBPF maps absent (the Go bookkeeping assigns blocks); log files are real files in a per-run temp dir; rotation compression and age cleanup are not driven.", ref="§5 C10"),
  "C13": dict(tech=TECH + "snapshot equality at full-sync completion, push-order application per connected stream period, convergence after a fault-free bound",
-   text="Seeded exploration of add/update/delete histories on the active node with stream disconnects at any byte, lost and late responses, partitions, standby crash/restart and changes landing between snapshot and stream attach, using the real HASyncer handlers, SSE reader and back-off over a simulated HTTP transport. Sampling, not proof.",
-   note="HTTP/TCP replaced by an in-process RoundTripper that runs the peer's real http.Handler as a scheduler task; active-node crash and a mid-body cut of the full-sync JSON are not modelled; one pusher at a time.", ref="§5 C13"),
+   text="Seeded exploration of add/update/delete histories on the active node with stream disconnects at any byte, half-open streams, lost and late responses, partitions, refused writes of the standby's own store, stalled goroutines, standby crash/restart and changes landing between snapshot and stream attach or at the instant of the attach, using the real HASyncer handlers, SSE reader and back-off over a simulated HTTP transport. Sampling, not proof.",
+   note="HTTP/TCP replaced by an in-process RoundTripper that runs the peer's real http.Handler as a scheduler task; active-node crash and a mid-body cut of the full-sync JSON are not modelled; one pusher at a time; a pushed change may be lost only if it could have been in flight when the standby saw the disconnect (same virtual instant, across a partition, within injected stall time, or read by a standby that crashed).", ref="§5 C13"),
  "C14": dict(tech=TECH + "timed monitor over the recorded health-event, failover-event, callback and role/state streams",
    text="Seeded exploration of partner up/down windows around the threshold/delay boundaries, probe loss, operator commands in every state, callback ok/fail/slow and same-instant timer-vs-event orderings against the real FailoverController and HealthMonitor wired as cmd/bng does, probing a simulated partner. Sampling, not proof.",
    note="Controller whose original role is active and non-200 partner replies are not driven; a recovery exactly at the expiry instant may go either way.", ref="§5 C14"),
@@ -44,7 +44,7 @@ CLAIMED = {
    text="Seeded exploration of 1-5 (thorough: 8) PeerPool nodes with generated node ids, per-node configuration orders, AddPeer/RemovePeer, partitions, crashes and probe loss, with the real forwarding/health code and HTTP handlers over the simulated transport. Sampling, not proof.",
    note="Node ids are URL-host-safe strings; a peer set never contains both x and x:8081; the end-to-end clause is judged only while all live nodes share peer set and health view.", ref="§5 C17"),
  "C12": dict(tech=TECH + "store-vs-memory agreement after restart and after failed store operations, announced-address application per watch delivery context, observational equality after JSON round trip",
-   text="Seeded exploration of allocate/renew/release histories on 1-3 real DistributedAllocator nodes (session and lease mode) over a simulated replicated store with crashes before/after every store call, clean stops, restarts over the store, every Query enumeration order, store failures at every call and delayed/duplicated/reordered watch notifications; PoolAllocator behind a failing store; JSON round trips of the allocators after every operation. Sampling, not proof.",
+   text="Seeded exploration of allocate/renew/release histories on 1-3 real DistributedAllocator nodes (session and lease mode) over a simulated replicated store with crashes before/after every store call, clean stops, restarts over the store, every Query enumeration order, store failures at every call (optionally coinciding with the caller's context being cancelled), overlapping calls for one subscriber on one node, lease grace 1 or 2, and delayed/duplicated/reordered watch notifications; PoolAllocator behind a failing store; JSON round trips of the allocators after every operation. Sampling, not proof.",
    note="The store backend is the harness's (linearizable, a failed call has no effect); multi-writer double claims are C01/C17 territory and excluded; watch findings carry the delivery context (FIFO vs after-reorder/dup/local-write-race) in their fingerprint.", ref="§5 C12"),
  "C20": dict(tech=TECH + "bijection model (key <-> subscriber) checked step by step and by linearizability (porcupine), forward/reverse lookup agreement after every operation",
    text="Seeded exploration of allocate/release/load/register/unregister/create/remove/update histories from 1-4 callers over tiny tag ranges and id spaces against the real VLANAllocator, qinq.Mapper, pppoe.SessionManager (incl. id wrap-around and two sessions per MAC), state.Store, MemoryAllocationStore, subscriber.Manager indexes and the circuit-id key functions. Sampling, not proof.",
